@@ -13,6 +13,16 @@ incl. the *_pole setters, gm2calc_mssmnofv_convert_to_onshell_params(precision, 
 default entry point gm2calc_mssmnofv_convert_to_onshell, getters, have_warning, free): same oracle, and the result must
 be bitwise the one of the C++ conversion of the same case.
 
+Object re-use: all ordered pairs (thorough: and triples) of conversions on ONE model object (C++ object and C handle) over
+an alphabet of 4 points (bino-like neutralino lightest / second / heaviest, either sign of M1, right-like smuon lighter /
+heavier than the left-like) x what the user supplies (all pole masses; + pole mixing matrices; none = tree-level
+fallback; only chargino/neutralino; only sneutrino/smuon).  Before every conversion all inputs a user has a setter for
+are set again (a user's own NMIX/SMUMIX are removed when he has none for the new point; matrices the library stored are
+not touched).  Per step: the clauses above for the sectors whose pole masses were given, and the differential clause:
+the result equals that of a fresh object given the same inputs - bitwise, or (the first mass spectrum inside
+convert_to_onshell() is computed from whatever gauge couplings the object holds, so the iteration can start elsewhere)
+same warning status, parameters within 10 p and a_mu within 0.1 p/GeV of its scale.
+
 Oracle (harness/mssm_ref.cpp only dumps getters, all decisions are taken here): unless have_warning()
  (i)   both chargino masses reproduce the generating ones within p,
  (ii)  the bino-like neutralino (largest |ZN(i,1)|^2, determined here from the dumped column) reproduces the
@@ -162,8 +172,12 @@ def conditioning(g):
     return gaug_sep, smu_sep and small_mix
 
 
-def evaluate(pt, glines):
-    """glines: harness output lines of one C command.  Returns (stats Counter-like dict, fails list, keys set)."""
+ALL_CLAUSES = frozenset(("gaugino", "slepton", "recovery"))
+
+
+def evaluate(pt, glines, only=ALL_CLAUSES):
+    """glines: harness output lines of one C command.  Returns (stats Counter-like dict, fails list, keys set).
+    only: clause groups to apply (chargino+bino / sneutrino+right smuon / parameter recovery)"""
     stats, fails, keys = {}, [], set()
 
     def add(k, n=1):
@@ -223,103 +237,289 @@ def evaluate(pt, glines):
         add("checked")
         data = (mode, prec, pert)
         bad = False
-        # (i) charginos
-        dcha = max(abs(m["cha"][i] - g["cha"][i]) for i in range(2))
-        worst["cha"] = max(worst.get("cha", 0.0), dcha / prec)
-        if not dcha <= prec:
-            fails.append(("chargino:%s:%s" % (gn, ptag), "chargino masses %r vs generating %r: |diff| %.3e > p=%g, no warning"
-                          % (m["cha"], g["cha"], dcha, prec)) + data)
-            bad = True
-        # (ii) bino-like neutralino
-        bm = bino_index(m)
-        dbino = abs(m["chi"][bm] - g["chi"][bg])
-        if mode in (1, 2) or gaug_ok:
-            worst["bino"] = max(worst.get("bino", 0.0), dbino / prec)
-            if not dbino <= prec:
-                fails.append(("bino:%s:%s:%s" % (MODE_TAG[mode], gn, ptag),
-                              "bino-like neutralino (index %d) mass %.12g vs generating bino-like (index %d) %.12g: |diff| %.3e > p=%g, no warning"
-                              % (bm, m["chi"][bm], bg, g["chi"][bg], dbino, prec)) + data)
+        bm, rm, dsm = bino_index(m), right_index(m), 0.0
+        if "gaugino" in only:
+            # (i) charginos
+            dcha = max(abs(m["cha"][i] - g["cha"][i]) for i in range(2))
+            worst["cha"] = max(worst.get("cha", 0.0), dcha / prec)
+            if not dcha <= prec:
+                fails.append(("chargino:%s:%s" % (gn, ptag), "chargino masses %r vs generating %r: |diff| %.3e > p=%g, no warning"
+                              % (m["cha"], g["cha"], dcha, prec)) + data)
                 bad = True
-        else:
-            dself = min(abs(m["chi"][bm] - x) for x in g["chi"])
-            if dbino > prec:
-                add("bino_other_pole_mass_fitted(noNMIX,non-separated)")
-            if not dself <= prec:
-                fails.append(("bino-selfconsistent:%s:%s" % (gn, ptag),
-                              "bino-like neutralino mass %.12g equals none of the input pole masses %r within p=%g, no warning"
-                              % (m["chi"][bm], g["chi"], prec)) + data)
-                bad = True
-        # (iii) sneutrino
-        dsnu = abs(m["snu"] - g["snu"])
-        worst["snu_rel"] = max(worst.get("snu_rel", 0.0), dsnu / g["snu"])
-        if not dsnu <= prec + 1e-13 * g["snu"]:
-            fails.append(("sneutrino:%s" % ptag, "muon sneutrino mass %.15g vs generating %.15g: |diff| %.3e > p=%g"
-                          % (m["snu"], g["snu"], dsnu, prec)) + data)
-            bad = True
-        # (iv) right-like smuon
-        rm = right_index(m)
-        dsm = abs(m["sm"][rm] - g["sm"][rg])
-        if dsm > prec:
-            # was the fit itself achieved?  Rebuild the smuon mass matrix of the converted parameter set with the
-            # muon Yukawa the me2 fit worked with (y_prefit) and look at its mostly right-handed eigenstate.
-            mpre, round_ = smuon_right_mass(m["par"], rest[2:8], rest[8])
-            fitted = mpre is not None and abs(mpre - g["sm"][rg]) <= prec + round_
-            where = "(tb=%g mu=%g M1=%g M2=%g mL=%g mR=%g)" % (tb, mu, M1, M2, mL, mR)
-            if fitted:
-                size = "dev<1e-3GeV" if dsm < SMUON_CAP else "dev>=1e-3GeV:strong-mixing"
-                add("smuonR_yukawa_update_%s:%s" % (size.split(":")[0], ptag))
-                if dsm > worst.get("smuR_yukawa_update_dev_GeV", 0.0):
-                    worst["smuR_yukawa_update_dev_GeV"] = dsm
-                    worst["@smuR_yukawa_update"] = "%s p=%g pert=%d mode=%d: right-like smuon %.10g vs %.10g" % (
-                        where, prec, pert, mode, m["sm"][rm], g["sm"][rg])
-                worst["smuR_yukawa_update_dev/splitting"] = max(worst.get("smuR_yukawa_update_dev/splitting", 0.0),
-                                                                dsm / abs(g["sm"][1] - g["sm"][0]))
-                fails.append(("smuonR:post-fit-yukawa-update:" + size,
-                              "right-like smuon mass %.12g vs generating %.12g: |diff| %.3e GeV > p=%g, no warning; with the pre-fit "
-                              "muon Yukawa %.10g (final %.10g) the fitted me2 gives %.12g %s"
-                              % (m["sm"][rm], g["sm"][rg], dsm, prec, rest[8], rest[6], mpre, where)) + data)
+            # (ii) bino-like neutralino
+            bm = bino_index(m)
+            dbino = abs(m["chi"][bm] - g["chi"][bg])
+            if mode in (1, 2) or gaug_ok:
+                worst["bino"] = max(worst.get("bino", 0.0), dbino / prec)
+                if not dbino <= prec:
+                    fails.append(("bino:%s:%s:%s" % (MODE_TAG[mode], gn, ptag),
+                                  "bino-like neutralino (index %d) mass %.12g vs generating bino-like (index %d) %.12g: |diff| %.3e > p=%g, no warning"
+                                  % (bm, m["chi"][bm], bg, g["chi"][bg], dbino, prec)) + data)
+                    bad = True
             else:
-                # which input pole mass did the right-like state end up on?  (mode 2: left-like one was shifted)
-                other = g["sm"][1 - rg] * ((1.01 if 1 - rg == 1 else 0.99) if mode == 2 else 1.0)
-                how = "root-finder" if "r" in path else "fpi"
-                if mpre is not None and abs(mpre - other) <= prec + round_:
-                    add("smuonR_on_left_like_pole_mass:%s:%s:mode%d" % (how, sn, mode))
-                    fails.append(("smuonR:%s-matches-left-like-pole-mass:%s:%s" % (how, sn, ("shiftedL" if mode == 2 else "tree-level-spectrum")),
-                                  "the fitted right-like smuon (index %d, |U_R| %.3f, mass %.10g) sits on the LEFT-like input pole mass %.10g "
-                                  "instead of the right-like one %.10g (|diff| %.3e GeV), achieved precision reported as fine, no warning; "
-                                  "input smuon pole masses %r, path '%s'"
-                                  % (rm, abs(m["usm"][rm][1]), m["sm"][rm], other, g["sm"][rg], dsm,
-                                     [other if i != rg else g["sm"][rg] for i in range(2)], path)) + data)
-                else:
-                    fails.append(("smuonR:not-fitted:%s:%s" % (sn, ptag),
-                                  "right-like smuon (index %d, |U_R| %.3f) mass %.10g vs generating right-like (index %d) %.10g: "
-                                  "|diff| %.3e GeV > p=%g, no warning, and not explained by the post-fit Yukawa update (pre-fit Yukawa gives %r); "
-                                  "smuon pole masses %r, fitted %r, path '%s'"
-                                  % (rm, abs(m["usm"][rm][1]), m["sm"][rm], rg, g["sm"][rg], dsm, prec, mpre, g["sm"], m["sm"], path)) + data)
+                dself = min(abs(m["chi"][bm] - x) for x in g["chi"])
+                if dbino > prec:
+                    add("bino_other_pole_mass_fitted(noNMIX,non-separated)")
+                if not dself <= prec:
+                    fails.append(("bino-selfconsistent:%s:%s" % (gn, ptag),
+                                  "bino-like neutralino mass %.12g equals none of the input pole masses %r within p=%g, no warning"
+                                  % (m["chi"][bm], g["chi"], prec)) + data)
+                    bad = True
+        if "slepton" in only:
+            # (iii) sneutrino
+            dsnu = abs(m["snu"] - g["snu"])
+            worst["snu_rel"] = max(worst.get("snu_rel", 0.0), dsnu / g["snu"])
+            if not dsnu <= prec + 1e-13 * g["snu"]:
+                fails.append(("sneutrino:%s" % ptag, "muon sneutrino mass %.15g vs generating %.15g: |diff| %.3e > p=%g"
+                              % (m["snu"], g["snu"], dsnu, prec)) + data)
                 bad = True
-        else:
-            add("smuonR_within_p")
-        # (v) parameter recovery
-        gp, mp_ = g["par"], m["par"]
-        rel = [abs(mp_[i] / gp[i] - 1) for i in range(3)] + [abs(math.sqrt(abs(mp_[i]) / gp[i]) - 1) for i in (3, 4)]
-        ra = abs(m["amu"] - g["amu"]) / g["amuscale"]
-        rec = max(rel)
-        worst["amu_dev_any_checked"] = max(worst.get("amu_dev_any_checked", 0.0), ra)
-        if dsm > prec:
-            worst["amu_dev_with_smuR_defect"] = max(worst.get("amu_dev_with_smuR_defect", 0.0), ra)
-        if wellcond:
-            add("wellcond_checked")
-            worst["rec_par"] = max(worst.get("rec_par", 0.0), rec)
-            worst["rec_amu"] = max(worst.get("rec_amu", 0.0), ra)
-            if not (rec <= REC_TOL and ra <= AMU_TOL) and not bad:
-                fails.append(("recovery:%s:%s:%s" % (gn, sn, ptag),
-                              "well-conditioned point: parameters (mu,M1,M2,ml2,me2) %r vs generating %r (max rel %.3e, allowed %g); "
-                              "a_mu %.10e vs %.10e (diff %.3e of |chi0|+|chi+-|+|2L|, allowed %g)" % (mp_, gp, rec, REC_TOL, m["amu"], g["amu"], ra, AMU_TOL))
-                             + data)
-        else:
-            add("illcond:recovered" if (rec <= REC_TOL and ra <= AMU_TOL) else "illcond:not_recovered:%s:%s" % (gn, sn))
+            # (iv) right-like smuon
+            rm = right_index(m)
+            dsm = abs(m["sm"][rm] - g["sm"][rg])
+            if dsm > prec:
+                # was the fit itself achieved?  Rebuild the smuon mass matrix of the converted parameter set with the
+                # muon Yukawa the me2 fit worked with (y_prefit) and look at its mostly right-handed eigenstate.
+                mpre, round_ = smuon_right_mass(m["par"], rest[2:8], rest[8])
+                fitted = mpre is not None and abs(mpre - g["sm"][rg]) <= prec + round_
+                where = "(tb=%g mu=%g M1=%g M2=%g mL=%g mR=%g)" % (tb, mu, M1, M2, mL, mR)
+                if fitted:
+                    size = "dev<1e-3GeV" if dsm < SMUON_CAP else "dev>=1e-3GeV:strong-mixing"
+                    add("smuonR_yukawa_update_%s:%s" % (size.split(":")[0], ptag))
+                    if dsm > worst.get("smuR_yukawa_update_dev_GeV", 0.0):
+                        worst["smuR_yukawa_update_dev_GeV"] = dsm
+                        worst["@smuR_yukawa_update"] = "%s p=%g pert=%d mode=%d: right-like smuon %.10g vs %.10g" % (
+                            where, prec, pert, mode, m["sm"][rm], g["sm"][rg])
+                    worst["smuR_yukawa_update_dev/splitting"] = max(worst.get("smuR_yukawa_update_dev/splitting", 0.0),
+                                                                    dsm / abs(g["sm"][1] - g["sm"][0]))
+                    fails.append(("smuonR:post-fit-yukawa-update:" + size,
+                                  "right-like smuon mass %.12g vs generating %.12g: |diff| %.3e GeV > p=%g, no warning; with the pre-fit "
+                                  "muon Yukawa %.10g (final %.10g) the fitted me2 gives %.12g %s"
+                                  % (m["sm"][rm], g["sm"][rg], dsm, prec, rest[8], rest[6], mpre, where)) + data)
+                else:
+                    # which input pole mass did the right-like state end up on?  (mode 2: left-like one was shifted)
+                    other = g["sm"][1 - rg] * ((1.01 if 1 - rg == 1 else 0.99) if mode == 2 else 1.0)
+                    how = "root-finder" if "r" in path else "fpi"
+                    if mpre is not None and abs(mpre - other) <= prec + round_:
+                        add("smuonR_on_left_like_pole_mass:%s:%s:mode%d" % (how, sn, mode))
+                        fails.append(("smuonR:%s-matches-left-like-pole-mass:%s:%s" % (how, sn, ("shiftedL" if mode == 2 else "tree-level-spectrum")),
+                                      "the fitted right-like smuon (index %d, |U_R| %.3f, mass %.10g) sits on the LEFT-like input pole mass %.10g "
+                                      "instead of the right-like one %.10g (|diff| %.3e GeV), achieved precision reported as fine, no warning; "
+                                      "input smuon pole masses %r, path '%s'"
+                                      % (rm, abs(m["usm"][rm][1]), m["sm"][rm], other, g["sm"][rg], dsm,
+                                         [other if i != rg else g["sm"][rg] for i in range(2)], path)) + data)
+                    else:
+                        fails.append(("smuonR:not-fitted:%s:%s" % (sn, ptag),
+                                      "right-like smuon (index %d, |U_R| %.3f) mass %.10g vs generating right-like (index %d) %.10g: "
+                                      "|diff| %.3e GeV > p=%g, no warning, and not explained by the post-fit Yukawa update (pre-fit Yukawa gives %r); "
+                                      "smuon pole masses %r, fitted %r, path '%s'"
+                                      % (rm, abs(m["usm"][rm][1]), m["sm"][rm], rg, g["sm"][rg], dsm, prec, mpre, g["sm"], m["sm"], path)) + data)
+                    bad = True
+            else:
+                add("smuonR_within_p")
+        if "recovery" in only:
+            # (v) parameter recovery
+            gp, mp_ = g["par"], m["par"]
+            rel = [abs(mp_[i] / gp[i] - 1) for i in range(3)] + [abs(math.sqrt(abs(mp_[i]) / gp[i]) - 1) for i in (3, 4)]
+            ra = abs(m["amu"] - g["amu"]) / g["amuscale"]
+            rec = max(rel)
+            worst["amu_dev_any_checked"] = max(worst.get("amu_dev_any_checked", 0.0), ra)
+            if dsm > prec:
+                worst["amu_dev_with_smuR_defect"] = max(worst.get("amu_dev_with_smuR_defect", 0.0), ra)
+            if wellcond:
+                add("wellcond_checked")
+                worst["rec_par"] = max(worst.get("rec_par", 0.0), rec)
+                worst["rec_amu"] = max(worst.get("rec_amu", 0.0), ra)
+                if not (rec <= REC_TOL and ra <= AMU_TOL) and not bad:
+                    fails.append(("recovery:%s:%s:%s" % (gn, sn, ptag),
+                                  "well-conditioned point: parameters (mu,M1,M2,ml2,me2) %r vs generating %r (max rel %.3e, allowed %g); "
+                                  "a_mu %.10e vs %.10e (diff %.3e of |chi0|+|chi+-|+|2L|, allowed %g)" % (mp_, gp, rec, REC_TOL, m["amu"], g["amu"], ra, AMU_TOL))
+                                 + data)
+            else:
+                add("illcond:recovered" if (rec <= REC_TOL and ra <= AMU_TOL) else "illcond:not_recovered:%s:%s" % (gn, sn))
         keys.add(("ok", mode, ptag, gn, sn, sgn, tb, path, bm, rm, pert // 81))
     return stats, fails, keys, worst
+
+
+# ---------------------------------------------------------------------------------------------------------------
+# object re-use family: sequences of conversions on ONE model object (C++ object or C handle).  Alphabet of states =
+# point x what the user supplies; the points differ in every discrete choice the conversion takes.
+SEQ_POINTS = [
+    ((10.0, 400.0, 150.0, 1200.0, 300.0, 1000.0), "bino-lightest:M1>0", "L<R"),
+    ((40.0, 1200.0, 400.0, 150.0, 1000.0, 300.0), "bino-second:M1>0", "R<L"),
+    ((10.0, 300.0, -1000.0, 500.0, 300.0, 1000.0), "bino-heaviest:M1<0", "L<R"),
+    ((60.0, -400.0, -150.0, 1200.0, 1000.0, 300.0), "bino-lightest:M1<0", "R<L"),
+]
+# (pole, mixing): pole bit0 chargino+neutralino pole masses given, bit1 sneutrino+smuon pole masses given (absent =
+# set to zero = documented tree-level fallback); mixing 1 = pole mixing matrices supplied (C++ only)
+SEQ_SUPPLY = [(3, 0, "poles"), (3, 1, "poles+mixing"), (0, 0, "no-poles"), (1, 0, "gaugino-poles-only"),
+              (2, 0, "slepton-poles-only")]
+SEQ_PERTS = [121, 0]                  # exact initial guesses / all five 5% low
+RU_PAR_TOL = 10.0                     # |delta parameter| <= RU_PAR_TOL * p (GeV) between re-used and fresh object (measured worst 1.3 p)
+RU_AMU_TOL = 0.1                      # |delta a_mu| <= RU_AMU_TOL * p/GeV * (|chi0|+|chi+-|+|2L|)  (measured worst 1e-3)
+
+
+def seq_states(api):
+    return [(ip, isup) for ip in range(len(SEQ_POINTS)) for isup, s in enumerate(SEQ_SUPPLY) if api == 0 or s[1] == 0]
+
+
+def seq_jobs(quick):
+    """list of (api, prec, pert, tuple of states)"""
+    jobs = []
+    for api in (0, 1):
+        st = seq_states(api)
+        for prec in ([1e-8] if quick else [1e-8, 1e-4]):
+            for pert in SEQ_PERTS:
+                for seq in itertools.product(st, repeat=2):
+                    jobs.append((api, prec, pert, seq))
+                if not quick:
+                    for seq in itertools.product(st, repeat=3):
+                        jobs.append((api, prec, pert, seq))
+    return jobs
+
+
+def seq_cmd(job):
+    api, prec, pert, seq = job
+    parts = []
+    for ip, isup in seq:
+        p = SEQ_POINTS[ip][0]
+        pole, mixing, _ = SEQ_SUPPLY[isup]
+        parts.append("%s %d %d %d" % (" ".join(hexf(v) for v in p + (0.0,)), pole, mixing, pert))
+    return "Q %d %s %d %s" % (api, hexf(prec), len(seq), " ".join(parts))
+
+
+def state_name(st):
+    return "%s/%s/%s" % (SEQ_POINTS[st[0]][1], SEQ_POINTS[st[0]][2], SEQ_SUPPLY[st[1]][2])
+
+
+def evaluate_seq(job, lines):
+    """lines: harness output of one Q command -> (stats, fails[(key, what)], keys, worst)"""
+    api, prec, pert, seq = job
+    stats, fails, keys, worst = {}, [], set(), {}
+
+    def add(k, n=1):
+        stats[k] = stats.get(k, 0) + n
+
+    by = {}
+    for ln in lines:
+        tk = ln.split(None, 2)
+        by[(tk[0], int(tk[1]))] = tk[2]
+    apiname = ("C++", "C")[api]
+    for k, st in enumerate(seq):
+        gl = by.get(("QG", k))
+        if gl is None or not gl.startswith("OK"):
+            add("seq_step_skipped")
+            continue
+        pole, mixing, supname = SEQ_SUPPLY[st[1]]
+        (tb, mu, M1, M2, mL, mR), gn, sn = SEQ_POINTS[st[0]]
+        pt = (tb, mu, M1, M2, mL, mR, (gn, sn))
+        only = set()
+        if pole & 1:
+            only.add("gaugino")
+        if pole & 2:
+            only.add("slepton")
+        if pole == 3 and pert == 121:
+            only.add("recovery")
+        hist = " -> ".join(state_name(s) for s in seq[:k + 1])
+        ctxt = "[%s interface, conversion %d of the sequence %s on one object, p=%g, guesses %s]" % (
+            apiname, k + 1, hist, prec, pert_name(pert))
+        res = {}
+        prev_gaugino_fallback = any(not (SEQ_SUPPLY[s[1]][0] & 1) for s in seq[:k])
+        # an earlier conversion on this object used the tree-level fallback for the neutralinos, which also stores that
+        # point's mixing matrix as *pole* ZN; no later input resets it and it decides which pole mass fixes M1
+        stale_zn = prev_gaugino_fallback and bool(pole & 1) and not mixing
+        fresh_keys = set()
+        for tag in ("QF", "QR"):
+            body = by.get((tag, k))
+            if body is None:
+                raise InfraError("Q output incomplete: " + seq_cmd(job)[:120])
+            res[tag] = body
+            if only:
+                rline = "R %d %s %d %s" % (1 if mixing else 0, hexf(prec), pert, body)
+                st_, fl, ky, w = evaluate(pt, ["G " + gl, rline], frozenset(only))
+                if tag == "QF":
+                    fresh_keys = set(key for key, _w, _m, _p, _q in fl)
+                    if st_.get("checked", 0) == 0 and st_.get("warned", 0):
+                        add("seq_fresh_warned")
+                    continue
+                add("seq_conversions_checked", st_.get("checked", 0))
+                add("seq_conversions_warned", st_.get("warned", 0))
+                for key, what, _m, _p, _q in fl:
+                    if stale_zn and key not in fresh_keys and key.split(":")[0] in ("bino", "bino-selfconsistent", "chargino"):
+                        key = "reuse:%s:stale-pole-ZN-after-tree-level-fallback:%s" % (apiname, key.split(":")[0])
+                    fails.append((key, "%s %s" % (what, ctxt)))
+        add("seq_steps")
+        r, f = res["QR"].split(), res["QF"].split()
+        if r == f:
+            add("seq_step_bitwise_equal_to_fresh")
+            keys.add(("reuse", api, k, st, prev_gaugino_fallback, "bitwise"))
+            continue
+        # (b) differential: status, warning flag, and - both unwarned - parameters and a_mu within the precision
+        what = None
+        if r[0] != f[0]:
+            what = "status %s on the re-used object, %s on a fresh one" % (" ".join(r[:3]), " ".join(f[:3]))
+        elif r[0] == "OK":
+            fr, ff = int(r[1]), int(f[1])
+            if (fr & 1) != (ff & 1):
+                what = "re-used object %s, fresh object %s" % tuple("warns (flags %d)" % x if x & 1 else "converts without warning" for x in (fr, ff))
+            elif not fr & 1:
+                pr, pf = [unhex(t) for t in r[2:7]], [unhex(t) for t in f[2:7]]
+                ar, af, scale = unhex(r[24]), unhex(f[24]), unhex(f[25])
+                d = [abs(pr[i] - pf[i]) for i in range(3)] + [abs(math.sqrt(abs(pr[i])) - math.sqrt(abs(pf[i]))) for i in (3, 4)]
+                da = abs(ar - af) / scale
+                if max(d) <= RU_PAR_TOL * prec and da <= RU_AMU_TOL * prec:
+                    worst["reuse_par_diff/p"] = max(worst.get("reuse_par_diff/p", 0.0), max(d) / prec)
+                    worst["reuse_amu_diff/(p*scale)"] = max(worst.get("reuse_amu_diff/(p*scale)", 0.0), da / prec)
+                else:
+                    what = ("converted parameters (mu,M1,M2,ml2,me2) %r on the re-used object, %r on a fresh one (max |diff| %.3e GeV, "
+                            "allowed %g); a_mu %.10e vs %.10e" % (pr, pf, max(d), RU_PAR_TOL * prec, ar, af))
+        if what is None:
+            add("seq_step_equal_within_precision")
+            keys.add(("reuse", api, k, st, prev_gaugino_fallback, "within-p"))
+            continue
+        # the one mechanism known on the unchanged tree: an earlier conversion on this object used the tree-level fallback
+        # for the neutralinos, which also stores that point's mixing matrix as *pole* ZN; no later input resets it
+        if not pole & 2:
+            # this conversion itself falls back to tree-level slepton pole masses: on a fresh object they are taken from a
+            # spectrum computed before gauge couplings / Yukawas are initialised, on a used object from an initialised one
+            why = "slepton-tree-level-fallback-in-this-step"
+        elif stale_zn:
+            why = "stale-pole-ZN-after-tree-level-fallback"
+        else:
+            why = "after-" + "+".join(sorted(set(SEQ_SUPPLY[s[1]][2] for s in seq[:k])))
+        key = "reuse:%s:differs-from-fresh:%s" % (apiname, why)
+        fails.append((key, "%s %s" % (what, ctxt)))
+    return stats, fails, keys, worst
+
+
+def _work_seq(chunk):
+    lines = [seq_cmd(j) for j in chunk]
+    p = subprocess.run([_EXE], input="\n".join(lines) + "\n", stdout=subprocess.PIPE, stderr=subprocess.PIPE, text=True, timeout=1200)
+    if p.returncode != 0:
+        return ("infra", "harness exit %d on Q chunk starting %s: %s" % (p.returncode, lines[0][:120], p.stderr[-300:]))
+    out = [l for l in p.stdout.split("\n") if l]
+    if not out or not out[-1].startswith("END"):
+        return ("infra", "harness output truncated on Q chunk")
+    # split per command: a QG 0 line starts a new command
+    groups, cur = [], None
+    for l in out[:-1]:
+        if l.startswith("ERR"):
+            return ("infra", l)
+        if l.startswith("QG 0 "):
+            cur = []
+            groups.append(cur)
+        if cur is None:
+            return ("infra", "unexpected Q output " + l[:80])
+        if l[0] == "Q":
+            cur.append(l)
+    if len(groups) != len(chunk):
+        return ("infra", "%d Q result groups for %d commands" % (len(groups), len(chunk)))
+    res = []
+    try:
+        for job, g in zip(chunk, groups):
+            res.append((job,) + evaluate_seq(job, g))
+    except InfraError as e:
+        return ("infra", str(e))
+    return ("ok", res)
 
 
 def _work(job):
@@ -377,7 +577,31 @@ def run(ctx):
                 break
         if stop:
             pool.terminate()
-    ctx.evals(total.get("checked", 0))
+    # ---- object re-use sequences
+    sjobs = seq_jobs(ctx.quick)
+    schunks = [sjobs[i:i + 40] for i in range(0, len(sjobs), 40)]
+    if not stop:
+        with mp.Pool(min(16, os.cpu_count() or 4)) as pool:
+            for res in pool.imap(_work_seq, schunks):
+                if res[0] == "infra":
+                    raise InfraError(res[1])
+                for job, st, fails, keys, w in res[1]:
+                    for k, v in st.items():
+                        total[k] = total.get(k, 0) + v
+                    for k, v in w.items():
+                        worst[k] = max(worst.get(k, 0.0), v)
+                    for k in sorted(keys):
+                        ctx.nontrivial(k)
+                    for key, what in fails:
+                        ctx.fail(key, what, {"seq": seq_cmd(job), "job": [job[0], hexf(job[1]), job[2], [list(s) for s in job[3]]]})
+                if ctx.out_of_time("re-use sequences"):
+                    break
+    print("[C05] object re-use: %d sequences (all ordered pairs%s over %d C++ / %d C states x guesses %s), %d conversions on a re-used "
+          "object: %d bitwise equal to a fresh object, %d equal within the precision, clause oracle on %d (warned %d)"
+          % (len(sjobs), "" if ctx.quick else " and triples", len(seq_states(0)), len(seq_states(1)), SEQ_PERTS, total.get("seq_steps", 0),
+             total.get("seq_step_bitwise_equal_to_fresh", 0), total.get("seq_step_equal_within_precision", 0),
+             total.get("seq_conversions_checked", 0), total.get("seq_conversions_warned", 0)))
+    ctx.evals(total.get("checked", 0) + total.get("seq_steps", 0))
     conv, warned, checked = total.get("conversions", 0), total.get("warned", 0), total.get("checked", 0)
     print("[C05] generating points %d (ok %d), conversions %d: checked %d, warned %d, exceptions %d"
           % (len(pts), total.get("gen_ok", 0), conv, checked, warned,
@@ -428,6 +652,22 @@ def replay(ctx, path):
     global _EXE
     _EXE = build.harness("mssm_ref", "plain", ["mssm_ref.cpp"])
     d = json.load(open(path))["data"]
+    if "seq" in d:
+        import fnmatch
+        j = d["job"]
+        job = (j[0], unhex(j[1]), j[2], tuple(tuple(s) for s in j[3]))
+        res = _work_seq([job])
+        if res[0] == "infra":
+            raise InfraError(res[1])
+        for key, what in res[1][0][2]:
+            if any(fnmatch.fnmatchcase(key, f["key"]) for f in ctx.findings):
+                print("replay: known finding %s: %s" % (key, what))
+                continue
+            print("replay: %s: %s" % (key, what))
+            print("VIOLATION property=C05 replay=%s" % path)
+            return 1
+        print("replay: holds now (%s)" % res[1][0][1])
+        return 0
     pt = tuple(d["point"][:6]) + (tuple(d["point"][6]),)
     # C-interface cases are compared with the C++ conversion of the same case: run mode 0 along
     res = _work((pt, (1 << d["mode"]) | (1 if d["mode"] >= 3 else 0), [unhex(d["prec"])], [d["pert"]], d["pert"] % CSTEP))
